@@ -21,7 +21,7 @@ func c39KF(pg *c38PGraph, op *c38Op, text string) []string {
 
 func c39Gen(r *Rng, tier string, n int) []Case {
 	kinds := []string{"rename", "move", "move", "move"}
-	var out []Case
+	out := c38Scripted(kinds, c39KF)
 	for _, t := range c38Corpus {
 		for k := 0; k < 3; k++ {
 			out = append(out, c38History(r.Fork(), t, 6, kinds, "corpus", c39KF)...)
